@@ -139,6 +139,9 @@ pub struct Case {
     pub mutation: Mutation,
     pub id: u16,
     pub edns: bool,
+    /// header flags set on the request before it is signed: bit 0 RD, bit 1 CD, bit 2 AD
+    #[serde(default)]
+    pub flags: u8,
     /// replay aid: flip only this bit of the reply instead of sweeping all of them
     #[serde(default)]
     pub reply_bit: Option<u32>,
@@ -289,6 +292,9 @@ fn base_request(c: &Case, client: &Key) -> Result<(Vec<u8>, hickory_proto::rr::T
         e.set_max_payload(1232);
         m.set_edns(e);
     }
+    m.metadata.recursion_desired = c.flags & 1 != 0;
+    m.metadata.checking_disabled = c.flags & 2 != 0;
+    m.metadata.authentic_data = c.flags & 4 != 0;
     let signer = hickory_signer(client, c.fudge);
     let verifier = m
         .finalize(&signer, c.t)
@@ -620,6 +626,9 @@ pub fn body(c: &Case, rec: &mut Rec) -> CaseResult {
     let mclass = mutation_class(&c.mutation);
     rec.class(format!("mutation={mclass}"));
     rec.class(format!("kind={:?}", c.kind));
+    if c.flags != 0 {
+        rec.class("request-flags:rd/cd/ad-set-before-signing");
+    }
     rec.class(format!("keyset={:?}", c.keyset));
     rec.class(format!("clock={}", match c.clock {
         Clock::Inside(_) => "Inside".to_string(),
@@ -1464,8 +1473,14 @@ fn udp_client_body(c: &UdpClientCase, rec: &mut Rec) -> CaseResult {
     Ok(())
 }
 
+/// the update builders of hickory's client clear every flag; a caller that assembles the message
+/// itself may set RD, CD or AD before signing
+fn req_flags() -> impl Strategy<Value = u8> {
+    prop_oneof![3 => Just(0u8), 2 => 1u8..8]
+}
+
 fn any_case(_t: Tier) -> impl Strategy<Value = Case> {
-    (kind(), keyset(), alg(), time_fudge(), clock(), mutation(), any::<u16>(), any::<bool>()).prop_map(|(kind, keyset, alg, (t, fudge), clock, mutation, id, edns)| Case {
+    (kind(), keyset(), alg(), time_fudge(), clock(), mutation(), any::<u16>(), any::<bool>(), req_flags()).prop_map(|(kind, keyset, alg, (t, fudge), clock, mutation, id, edns, flags)| Case {
         kind,
         keyset,
         alg,
@@ -1475,6 +1490,7 @@ fn any_case(_t: Tier) -> impl Strategy<Value = Case> {
         mutation,
         id,
         edns,
+        flags,
         reply_bit: None,
         boot: Boot::Direct,
     })
@@ -1493,7 +1509,7 @@ fn configured_case(t: Tier) -> impl Strategy<Value = Case> {
 
 fn unmodified_case(_t: Tier) -> impl Strategy<Value = Case> {
     let ks = prop_oneof![5 => Just(KeySet::One), 2 => Just(KeySet::TwoUseFirst), 3 => Just(KeySet::TwoUseSecond)];
-    (kind(), ks, alg(), time_fudge(), clock(), any::<u16>(), any::<bool>()).prop_map(|(kind, keyset, alg, (t, fudge), clock, id, edns)| Case {
+    (kind(), ks, alg(), time_fudge(), clock(), any::<u16>(), any::<bool>(), req_flags()).prop_map(|(kind, keyset, alg, (t, fudge), clock, id, edns, flags)| Case {
         kind,
         keyset,
         alg,
@@ -1503,6 +1519,7 @@ fn unmodified_case(_t: Tier) -> impl Strategy<Value = Case> {
         mutation: Mutation::None,
         id,
         edns,
+        flags,
         reply_bit: None,
         boot: Boot::Direct,
     })
@@ -1522,6 +1539,7 @@ fn enum_base(kind: Kind, alg: Alg, edns: bool, mutation: Mutation) -> Case {
         mutation,
         id: 0x1234,
         edns,
+        flags: 0,
         reply_bit: None,
         boot: Boot::Direct,
     }
